@@ -51,6 +51,23 @@ fn values_of(v: &Value) -> (Vec<Value>, Result<SerializedValues, String>) {
     } else {
         v.as_array().unwrap().clone()
     };
+    if v.is_array() && v[0] == "named" {
+        // values given BY NAME (a map) for bind markers named v[1] (names may repeat: the same value goes to every occurrence);
+        // the value of name x is the bytes of x
+        use scylla_cql::frame::response::result::{ColumnSpec, TableSpec};
+        use scylla_cql::serialize::row::RowSerializationContext;
+        let names: Vec<String> = v[1].as_array().map(|a| a.iter().filter_map(|x| x.as_str()).map(|x| x.to_string()).collect()).unwrap_or_default();
+        let cells: Vec<Value> = names.iter().map(|n| json!({"k":"val","b":n.as_bytes()})).collect();
+        let specs: Vec<ColumnSpec> = names.iter().map(|n| ColumnSpec::borrowed(n.as_str(), blob.clone(), TableSpec::borrowed("ks", "t"))).collect();
+        let r = if v[2] == "btree" {
+            let m: std::collections::BTreeMap<String, Vec<u8>> = names.iter().map(|n| (n.clone(), n.as_bytes().to_vec())).collect();
+            SerializedValues::from_serializable(&RowSerializationContext::from_specs(&specs), &m)
+        } else {
+            let m: std::collections::HashMap<&str, Vec<u8>> = names.iter().map(|n| (n.as_str(), n.as_bytes().to_vec())).collect();
+            SerializedValues::from_serializable(&RowSerializationContext::from_specs(&specs), &m)
+        };
+        return (cells, r.map_err(|e| e.to_string()));
+    }
     if v.is_array() && v[0] == "nulls_row" {
         // the other way a value list comes to be: a whole row serialised at once (what sessions do with the caller's values)
         use scylla_cql::frame::response::result::{ColumnSpec, TableSpec};
